@@ -4,6 +4,10 @@ def m(name, rule, key, old, new, count=1):
     return dict(name=name, kind='mutant', rule=rule, key=key, edits=[dict(file=R, old=old, new=new, count=count)])
 
 CASES = [
+    dict(name='revert-fix-floor-explicit-dunder', kind='mutant', rule='R3', key='SandboxResult.__floor__:through-the-builtin',
+         edits=[dict(file='pedal/sandbox/result.py', old="        return self._clone_this_result(math.floor(self.value))", new="        return self._clone_this_result(self.value.__floor__())")]),
+    dict(name='twin-floor-not-rewrapped', kind='twin',
+         edits=[dict(file='pedal/sandbox/result.py', old="        return self._clone_this_result(math.ceil(self.value))", new="        return math.ceil(self.value)")]),
     m('delete-rmod', 'R1', '__rmod__',
       "    def __rmod__(self, other):\n        left, right = _unwrap_value_pair(self, other)\n        return self._clone_this_result(right % left)\n\n", ""),
     m('revert-fix-rrshift', 'R1', '__rrshift__',
